@@ -71,6 +71,8 @@ def run(repo, rep):
     _log_rule(repo, rep, 'C09', 'C09.Z2')
     from ..api_pitfalls import truth_rule as _truth_rule
     _truth_rule(repo, rep, 'C09', 'C09.Z4')
+    from ..api_pitfalls import attribute_rule as _attribute_rule
+    _attribute_rule(repo, rep, 'C09', 'C09.Z5')
     hier = exc_hierarchy(repo)
     acc = repo.cls('asceprovider', 'AssociationAcceptor')
     f = acc.find_method('accept')
